@@ -1,20 +1,23 @@
 -------------------------------- MODULE Trace --------------------------------
 (* Universal trace specification: dispatches every event to its package.   *)
-EXTENDS TraceDate, TraceRoman, TraceUU, TraceSem, TraceSize, TraceCross
+EXTENDS TraceDate, TraceRoman, TraceUU, TraceSem, TraceSize, TraceCross, TraceRandom
 
-TraceInit == TraceBaseInit /\ DateInit /\ RomanInit /\ UUInit /\ SemInit /\ SizeInit
+allvars == <<dvars, rvars, uvars, svars, zvars, qvars>>
+
+TraceInit == TraceBaseInit /\ DateInit /\ RomanInit /\ UUInit /\ SemInit /\ SizeInit /\ RandomInit
 
 TraceNext ==
   \/ /\ l <= Len(Trace)
      /\ LET e == Trace[l] IN
-          \/ IsDateOp(e)  /\ DateStep(e)  /\ UNCHANGED <<rvars, uvars, svars, zvars>>
-          \/ IsRomanOp(e) /\ RomanStep(e) /\ UNCHANGED <<dvars, uvars, svars, zvars, ctx>>
-          \/ IsUUOp(e)    /\ UUStep(e)    /\ UNCHANGED <<dvars, rvars, svars, zvars, ctx>>
-          \/ IsSemOp(e)   /\ SemStep(e)   /\ UNCHANGED <<dvars, rvars, uvars, zvars, ctx>>
-          \/ IsSizeOp(e)  /\ SizeStep(e)  /\ UNCHANGED <<dvars, rvars, uvars, svars, ctx>>
-          \/ IsCrossOp(e) /\ CrossStep(e) /\ UNCHANGED <<dvars, rvars, uvars, svars, zvars, ctx>>
+          \/ IsDateOp(e)   /\ DateStep(e)   /\ UNCHANGED <<rvars, uvars, svars, zvars, qvars>>
+          \/ IsRomanOp(e)  /\ RomanStep(e)  /\ UNCHANGED <<dvars, uvars, svars, zvars, qvars, ctx>>
+          \/ IsUUOp(e)     /\ UUStep(e)     /\ UNCHANGED <<dvars, rvars, svars, zvars, qvars, ctx>>
+          \/ IsSemOp(e)    /\ SemStep(e)    /\ UNCHANGED <<dvars, rvars, uvars, zvars, qvars, ctx>>
+          \/ IsSizeOp(e)   /\ SizeStep(e)   /\ UNCHANGED <<dvars, rvars, uvars, svars, qvars, ctx>>
+          \/ IsCrossOp(e)  /\ CrossStep(e)  /\ UNCHANGED <<allvars, ctx>>
+          \/ IsRandomOp(e) /\ RandomStep(e) /\ UNCHANGED <<dvars, rvars, uvars, svars, zvars, ctx>>
      /\ l' = l + 1
-  \/ Finish /\ UNCHANGED <<dvars, rvars, uvars, svars, zvars>>
+  \/ Finish /\ UNCHANGED allvars
 
-TraceSpec == TraceInit /\ [][TraceNext]_<<tvars, dvars, rvars, uvars, svars, zvars>>
+TraceSpec == TraceInit /\ [][TraceNext]_<<tvars, allvars>>
 =============================================================================
